@@ -394,6 +394,11 @@ fn expand_derive(w: &[&str]) -> String {
 // ------------------------------------------------------------------------------------------------
 // generators (grammar-directed, plus a malformed stream)
 
+/// `mtlc` / `manimc`: only inputs that type-check when really compiled against
+/// `struct Style { x: f32, y: f32, alpha: f32, size: f32 }` (see harness/macro_compiled)
+static COMPILABLE: std::sync::atomic::AtomicBool = std::sync::atomic::AtomicBool::new(false);
+fn compilable() -> bool { COMPILABLE.load(std::sync::atomic::Ordering::Relaxed) }
+
 const EASINGS: [&str; 6] = ["P:Easing::OutQuad", "P:Easing::Linear", "P:Easing::InOutBack", "P:Easing::Ease", "P:my::easing::CUSTOM", "P:Linear"];
 
 fn gen_num(r: &mut Rng) -> String {
@@ -413,7 +418,12 @@ fn gen_braces(r: &mut Rng) -> String {
     let names = ["x", "y", "alpha", "size"];
     let n = r.below(4) as usize;
     let fs: Vec<String> = (0..n).map(|i| {
-        let e = match r.below(6) { 0 => format!("-{}", gen_num(r)), 1 => "1+2".into(), 2 => "foo(3)".into(), _ => gen_num(r) };
+        let num = |r: &mut Rng| {
+            let n = gen_num(r);
+            // integer literals do not type-check as f32 values: give them a suffix or a fraction
+            if compilable() && !n.contains('.') && !n.contains('e') { if r.chance(1, 2) { format!("{}f32", n) } else { format!("{}.0", n) } } else { n }
+        };
+        let e = match r.below(6) { 0 => format!("-{}", num(r)), 1 => if compilable() { "1.0+2.0".into() } else { "1+2".into() }, 2 => "foo(3)".into(), _ => num(r) };
         format!("{}={}", names[i], e)
     }).collect();
     format!("B:{}", fs.join(";"))
@@ -488,23 +498,25 @@ fn gen_sentence(r: &mut Rng, allow_default: bool, malformed: bool) -> Vec<String
 
 fn generate(suite: &str, seed: u64, n: usize, out: &mut dyn Write) {
     let mut r = Rng(seed ^ suite.bytes().fold(7u64, |h, c| h.wrapping_mul(131).wrapping_add(c as u64)));
+    if suite.ends_with('c') && suite != "mderive" { COMPILABLE.store(true, std::sync::atomic::Ordering::Relaxed); }
+    let suite = if compilable() { &suite[..suite.len() - 1] } else { suite };
     for i in 0..n {
         match suite {
             "mtl" => {
-                let malformed = i % 5 == 4;
+                let malformed = i % 5 == 4 && !compilable();
                 writeln!(out, "mtl {}", gen_sentence(&mut r, false, malformed).join(" ")).unwrap();
             }
             "manim" => {
-                let states = ["State::A", "State::B", "State::C", "S::Idle"];
+                let states = ["State::A", "State::B", "State::C", "S::Idle"];   // (`S` is an alias of `State` in the compiled family)
                 let d = match r.below(5) {
                     0 => "D:none".to_string(),
                     1 => format!("D:{}", r.pick(&states)),
-                    2 => format!("D:{}:E:{}", r.pick(&states), r.pick(&["Style::new(1,2)", "base_style", "Style{x:1,..Default::default()}"])),
+                    2 => format!("D:{}:E:{}", r.pick(&states), r.pick(&["Style::new(1,2)", "base_style", if compilable() { "Style{x:1.5,..Default::default()}" } else { "Style{x:1,..Default::default()}" }])),
                     _ => format!("D:{}:I:{}", r.pick(&states), gen_braces(&mut r)[2..].to_string()),
                 };
                 let mut line = format!("manim {}", d);
                 let narms = r.below(4);
-                let malformed = i % 6 == 5;
+                let malformed = i % 6 == 5 && !compilable();
                 for a in 0..narms {
                     let k = 1 + r.below(3) as usize;
                     let ss: Vec<&str> = (0..k).map(|_| r.pick(&states)).collect();
@@ -565,6 +577,15 @@ fn main() {
             let out = std::io::stdout();
             let mut out = BufWriter::new(out.lock());
             generate(&args[2], args[3].parse().unwrap(), args[4].parse().unwrap(), &mut out);
+        }
+        Some("render") => {
+            // the macro input (source text) of every `mtl` / `manim` op on stdin, one per line
+            let stdin = std::io::stdin();
+            for line in stdin.lock().lines() {
+                let line = line.unwrap();
+                let w: Vec<&str> = line.trim().split(' ').filter(|s| !s.is_empty()).collect();
+                println!("{}", match w.first().copied() { Some("mtl") => format!("Style {}", render(&w[1..])), Some("manim") => render_anim(&w[1..]), _ => "#".into() });
+            }
         }
         Some("show") => {
             // debugging aid: print the rendered source of an encoded op
